@@ -600,9 +600,11 @@ static void run_history_ops(int hidx, int len)
             rc_hist("create", live[sl] ? 0 : S[sl].desc);
             expect_zero = 0;
         } else if (op == O_BAD_CREATE) {
-            static const struct { int be, k, m, hd; } bad[] = { { EC_BACKEND_FLAT_XOR_HD, 4, 4, 3 }, { EC_BACKEND_JERASURE_RS_VAND, 4, 2, 2 }, { EC_BACKEND_LIBERASURECODE_RS_VAND, 30, 10, 10 }, { 99, 4, 2, 2 }, { EC_BACKEND_FLAT_XOR_HD, 10, 5, 5 }, { EC_BACKEND_NULL, -1, 2, 2 }, { EC_BACKEND_SHSS, 4, 2, 2 } };
-            int w = (int)rng_below(&r, 7);
-            cfg_t c = { bad[w].be, bad[w].k, bad[w].m, bad[w].hd, 0, CHKSUM_NONE };
+            static const struct { int be, k, m, hd, w; } bad[] = { { EC_BACKEND_FLAT_XOR_HD, 4, 4, 3, 0 }, { EC_BACKEND_JERASURE_RS_VAND, 4, 2, 2, 0 }, { EC_BACKEND_LIBERASURECODE_RS_VAND, 30, 10, 10, 0 }, { 99, 4, 2, 2, 0 }, { EC_BACKEND_FLAT_XOR_HD, 10, 5, 5, 0 }, { EC_BACKEND_NULL, -1, 2, 2, 0 }, { EC_BACKEND_LIBPHAZR, 4, 2, 2, 0 },
+                                                                  { EC_BACKEND_ISA_L_RS_VAND, 5, 3, 3, 4 }, { EC_BACKEND_ISA_L_RS_CAUCHY, 4, 4, 4, 64 }, { EC_BACKEND_ISA_L_RS_VAND, 5, 3, 3, 33 }, { EC_BACKEND_NULL, 4, 2, 2, 7 }, { EC_BACKEND_FLAT_XOR_HD, 16, 6, 3, 0 } };
+            int w = (int)rng_below(&r, 12);
+            if (!isal_ok && (bad[w].be == EC_BACKEND_ISA_L_RS_VAND || bad[w].be == EC_BACKEND_ISA_L_RS_CAUCHY)) w = 0;
+            cfg_t c = { bad[w].be, bad[w].k, bad[w].m, bad[w].hd, bad[w].w, CHKSUM_NONE };
             int d = lec_create(&c); rc_hist("create", d);
             if (d > 0) liberasurecode_instance_destroy(d);
         } else if (!live[sl]) {
@@ -677,6 +679,9 @@ resealed_done: ;
                 /* a backend that owns a trailer behind the payload writes it for every fragment it rebuilds: fragments of a
                  * backend without one are too short for that (garbage in, nothing the properties speak about) */
                 if (ref_backend_metadata_bytes(L->c.be) != ref_backend_metadata_bytes(S[o2].c.be)) break;
+                /* likewise a payload size that is not a multiple of the reader's word size (rs_vand works on 16-bit words and its
+                 * own stripes are always even; an ISA-L stripe may be odd): only stripes of the same backend, any shape, are exchanged */
+                if (L->c.be != S[o2].c.be) break;
                 live_t *F = &S[o2]; int fn = F->s.n;
                 int keep = 1 + (int)rng_below(&r, (uint32_t)fn);
                 int fp[32]; for (int i = 0; i < fn; i++) fp[i] = i; rng_shuffle(&r, fp, fn);
@@ -1261,6 +1266,53 @@ static void run_faults(void)
                 mon_distinct("nontrivial", mon_hash_u64((uint64_t)ni * 8 + (uint64_t)rep, 171));
                 mon_end();
             }
+        }
+    }
+    /* the flat-XOR backend's own failures: erasure sets of exactly hd (.. m) fragments are accepted by the front end and many of
+     * them cannot be solved by the code; the backend then reports failure and the public call has to pass that on.  Oracle:
+     * GF(2) rank of the surviving rows (unsolvable => the call must fail), bytes when it succeeds. */
+    {
+        static const cfg_t xs[] = { { EC_BACKEND_FLAT_XOR_HD, 5, 5, 3, 0, CHKSUM_CRC32 }, { EC_BACKEND_FLAT_XOR_HD, 9, 5, 3, 0, CHKSUM_NONE }, { EC_BACKEND_FLAT_XOR_HD, 10, 5, 3, 0, CHKSUM_CRC32 },
+                                    { EC_BACKEND_FLAT_XOR_HD, 6, 6, 3, 0, CHKSUM_NONE }, { EC_BACKEND_FLAT_XOR_HD, 3, 3, 3, 0, CHKSUM_CRC32 }, { EC_BACKEND_FLAT_XOR_HD, 6, 6, 4, 0, CHKSUM_CRC32 } };
+        for (size_t xi = 0; xi < sizeof xs / sizeof xs[0]; xi++) {
+            cfg_t c = xs[xi]; char ck[96]; cfg_key(&c, ck, sizeof ck);
+            live_t L; int ok = 0;
+            if (mon_case_all("%s|backend-own-failures|setup", ck)) { ok = live_open(&L, &c, (uint64_t)c.k * 23 + 5, MO.seed) == 0; if (!ok) mon_viol("C17", "setup-failed", "create/encode failed"); ledger_refresh(); mon_end(); }
+            if (!ok) continue;
+            int n = c.k + c.m; uint32_t full = (1u << n) - 1;
+            for (int sz = c.hd; sz <= c.m && sz <= c.hd + 1; sz++) {
+                int cb[32]; comb_first(cb, sz);
+                do {
+                    uint32_t er = mask_of(cb, sz);
+                    if (!(er & ((1u << c.k) - 1))) continue;                                   /* data must be lost or the backend is not asked */
+                    char em[128]; mask_str(er, n, em, sizeof em);
+                    if (!mon_case("%s|backend-own-failures|E=%s", ck, em)) continue;
+                    qp_t q; q_begin(&q);
+                    int sel[32]; int ns = list_of(full & ~er, n, sel);
+                    int solvable = 1; for (int i = 0; i < c.k; i++) if (((er >> i) & 1) && !gf2_in_span(L.cd.x, sel, ns, L.cd.x[i])) solvable = 0;
+                    char *lst[64]; int cnt = 0; for (int i = 0; i < n; i++) if (!((er >> i) & 1)) lst[cnt++] = (char *)L.s.frag[i];
+                    char *out = NULL; uint64_t ol = 0;
+                    int rc = liberasurecode_decode(L.desc, lst, cnt, L.s.flen, 0, &out, &ol);
+                    mon_count("evaluations", 1); mon_count(solvable ? "band_sets_solvable" : "band_sets_unsolvable", 1);
+                    if (rc == 0) {
+                        int exact = ol == L.s.len && !memcmp(out, L.data, L.s.len);
+                        liberasurecode_decode_cleanup(L.desc, out);
+                        if (!exact) mon_viol("C17", "backend-failure-not-reported", "decode of an erasure set the flat-XOR code %s returned 0 with wrong bytes", solvable ? "can solve" : "cannot solve");
+                    } else { if (rc > 0) mon_viol("C17", "positive-rc", "rc=%d", rc); mon_count("backend_own_failures_reported", 1); }
+                    int dest = __builtin_ctz(er);
+                    uint8_t *o = malloc(L.s.flen);
+                    rc = liberasurecode_reconstruct_fragment(L.desc, lst, cnt, L.s.flen, dest, (char *)o);
+                    mon_count("evaluations", 1);
+                    if (rc == 0 && memcmp(o, L.s.frag[dest], L.s.flen)) mon_viol("C17", "backend-failure-not-reported", "reconstruct(dest=%d) of an erasure set the flat-XOR code %s returned 0 with a wrong fragment", dest, solvable ? "can solve" : "cannot solve");
+                    free(o);
+                    q_zero(&q, "C17", "decode/reconstruct the backend itself refuses");
+                    /* and the instance still works */
+                    if ((er & 7u) == 1u) live_roundtrip(&L, "C17", "after a backend-reported failure", 1);
+                    mon_distinct("nontrivial", mon_hash_u64(er, mon_hash_str(ck, 172)));
+                    mon_end();
+                } while (comb_next(cb, sz, n));
+            }
+            if (mon_case_all("%s|backend-own-failures|teardown", ck)) { live_close(&L); mon_end(); }
         }
     }
     if (mon_case_all("final-leakcheck")) { q_leakcheck("C17", "end of fault workload"); mon_end(); }
